@@ -150,6 +150,14 @@ func (u *Unit) havocLoop(st *State, fr *Frame, lc *LoopContract) bool {
 			st.objs[p.Obj] = SliceV{osl.R, off, ln, cp}
 			return
 		}
+		// a pointer variable that pointed to an object of this activation still points to one (arbitrary contents)
+		if op, ok := old.(PtrV); ok && op.Obj != nil && op.Obj.fresh && len(op.Path) == 0 {
+			if pt, ok := a.Type().(*types.Pointer).Elem().Underlying().(*types.Pointer); ok {
+				o := u.newObject(st, u.havoc(st, pt.Elem(), a.Comment+".pointee"), a.Comment)
+				st.objs[p.Obj] = PtrV{Obj: o}
+				return
+			}
+		}
 		nv := u.havoc(st, a.Type().(*types.Pointer).Elem(), a.Comment)
 		inheritFresh(old, nv)
 		st.objs[p.Obj] = nv
